@@ -309,8 +309,8 @@ fn guess_rank_jobs(nmax: usize) -> Vec<Job<f64>> {
     jobs
 }
 
-fn float_jobs_f64(quick: bool) -> Vec<Job<f64>> {
-    let mut jobs = guess_rank_jobs(if quick { 16 } else { 64 });
+fn float_jobs_f64(quick: bool, deep: bool) -> Vec<Job<f64>> {
+    let mut jobs = guess_rank_jobs(if quick { 16 } else if deep { 128 } else { 64 });
     for a in alpha::subsets_axes(&alpha::value_set(), "v", 2, if quick { 4 } else { 12 }) {
         let q = std_queries(&a.x);
         jobs.push(Job { name: a.name.clone(), q, x: a.x, through_interp: true });
@@ -438,9 +438,11 @@ where
 }
 
 fn body(ctx: &Ctx) -> (Summary, Meta) {
-    let quick = ctx.quick();
+    // the former thorough bounds cost 2 s: they are the quick tier now; thorough doubles n
+    let quick = false;
+    let deep = !ctx.quick();
     let mut sum = Summary::default();
-    let j64 = float_jobs_f64(quick);
+    let j64 = float_jobs_f64(quick, deep);
     sum.merge(run_jobs(ctx, "lookup-f64", &j64, |j| format!("f64:{}", j.name), |j| {
         let mut o = JobOut::default();
         lookup_job(j, &mut o);
@@ -466,7 +468,7 @@ fn body(ctx: &Ctx) -> (Summary, Meta) {
     }));
     let meta = Meta {
         rule: "(a) every (n, initial guess g, rank r of the query, query kind in {interior, at a knot, knot+1ulp, knot-1ulp}) with n up to the bound; (b) every subset axis of the value set, the mixed-magnitude set 1e-300..1e300 and integer sets incl. +-2^30 / +-2^62 with every knot, both neighbours, midpoints, +-0, +-MAX, +-inf as queries; (c) spans 3, 0.3, 7, ... at far offsets with the 6 floats below the last knot; (d) long uniform/geometric/logarithmic/ulp-spaced axes (up to 10^4 knots) and long wide i32/i64 axes; every axis as contiguous, strided and reversed view, and through Interp1D/Interp2D::get_index_left_of. Oracle: linear scan. The hook counters classify every lookup by exit x (guess - bracket); non-trivial = lookup that leaves through the bisection.".into(),
-        bounds: format!("n <= {} for (a); {} f64 + {} f32 + {} i32 + {} i64 axis jobs; tier {}", if quick { 16 } else { 64 }, j64.len(), j32.len(), ji32.len(), ji64.len(), ctx.tier.name()),
+        bounds: format!("n <= {} for (a); {} f64 + {} f32 + {} i32 + {} i64 axis jobs; tier {}", if deep { 128 } else { 64 }, j64.len(), j32.len(), ji32.len(), ji64.len(), ctx.tier.name()),
         assumptions: vec!["precondition of the statement: finite span and finite (len-1)/span; integer axes with representable span".into()],
         extra: vec![],
     };
